@@ -5,7 +5,8 @@ from ..env import np, puan, pnd
 
 ID = "C13"
 RULE = ("Mode M: EVERY integer array of the stated shapes/alphabets: 1-D (axis=None) of length 1..5 over {-3..3}; 2-D 2x2, 2x3, 3x2 over "
-        "{-2..2} on both axes and flattened (axis=None); batched 3-D 2x2x2 over {-1,0,1,2} (axis=0) - x the seven methods. oracle: for "
+        "{-2..2} on both axes and flattened (axis=None); batched 3-D 2x2x2 over {-1,0,1,2} (axis=0); plus a fixed family of 120 'deep' arrays with up to 62 distinct priority levels (weights up to ~2^61, "
+        "several orders and sign patterns, ties, zeros, tall diagonal matrices) - x the seven methods. oracle: for "
         "'shadow' the level of a column is (row of its last non-zero entry, magnitude); w=0 <=> all-zero, sign kept, equal levels => equal "
         "|w|, lower level => smaller |w|, and dominance |w_j| > sum of |w_i| over all strictly lower levels (exact Python integers); "
         "'prio' = signed dense rank 1..K of the levels; 'rank' = dense and strictly monotone in the signed prio; first/last/min/max = direct "
@@ -31,8 +32,43 @@ def spaces(tier):
     return sp
 
 
-def shards(tier):
+def deep_arrays():
+    """Many distinct priority levels in one array (weights grow to ~2^61): 1-D arrays with n distinct magnitudes (n up to 62) in several
+    orders and sign patterns, with and without ties/zeros, and tall 2-D arrays whose every row is its own level."""
     out = []
+    for n in (8, 16, 24, 31, 32, 33, 40, 48, 56, 62):
+        base = list(range(1, n + 1))
+        for order in ("asc", "desc", "inter"):
+            v = base if order == "asc" else base[::-1] if order == "desc" else base[::2] + base[1::2][::-1]
+            for signs in ("+", "-", "alt"):
+                w = [x if signs == "+" else -x if signs == "-" else (x if i % 2 else -x) for i, x in enumerate(v)]
+                out.append(("1d", np.array(w, dtype=np.int64)))
+        out.append(("1d", np.array(base + base[: n // 2] + [0, 0], dtype=np.int64)))           # ties and zeros
+    for r in (8, 16, 31, 40, 61):
+        X = np.zeros((r, r), dtype=np.int64)
+        for i in range(r):
+            X[i, i] = 1 if i % 3 else -2
+        out.append(("2d", X))                    # every row its own level: r levels
+        out.append(("2d", X[:, ::-1].copy()))
+        Y = X.copy()
+        Y[-1, :] = 0
+        Y[:, 0] = 3                              # first column overridden in every row
+        out.append(("2d", Y))
+    return out
+
+
+_DEEP = None
+
+
+def deep():
+    global _DEEP
+    if _DEEP is None:
+        _DEEP = deep_arrays()
+    return _DEEP
+
+
+def shards(tier):
+    out = [("deep", lo, min(len(deep()), lo + 12)) for lo in range(0, len(deep()), 12)]
     for si, (kind, shape, alpha) in enumerate(spaces(tier)):
         n = len(alpha) ** int(np.prod(shape))
         step = 1500
@@ -49,6 +85,11 @@ def decode(idx, shape, alpha):
 
 
 def run_shard(desc, acc, tier):
+    if desc[0] == "deep":
+        for idx in range(desc[1], desc[2]):
+            kind, X = deep()[idx]
+            check_array(X, kind, acc, {"tier": tier, "si": "deep", "idx": idx})
+        return
     si, lo, hi = desc
     kind, shape, alpha = spaces(tier)[si]
     for idx in range(lo, hi):
@@ -133,6 +174,20 @@ def direct(X2, method):
     return out
 
 
+def fits_64(lv):
+    """Stated precondition of 'shadow': the result fits in 64 bits.  Judged on the SMALLEST dominating allocation (exact integers):
+    if even that needs more than 2^62 in total, the array is outside the statement."""
+    counts = {}
+    for l in lv:
+        if l is not None:
+            counts[l[:2]] = counts.get(l[:2], 0) + 1
+    total = 0
+    for l in sorted(counts):
+        w = total + 1
+        total += w * counts[l]
+    return total <= 2 ** 62
+
+
 def judge(X2, method, got):
     """X2 already oriented so that compression is along axis 0.  Returns None or a reason."""
     got = np.asarray(got)
@@ -140,6 +195,8 @@ def judge(X2, method, got):
         return f"wrong output shape {got.shape}"
     lv = levels(X2)
     if method == "shadow":
+        if not fits_64(lv):
+            return "SKIP"
         return shadow_ok(got.tolist(), lv)
     if method == "prio":
         return None if [int(x) for x in got.tolist()] == prio_ref(lv) else "not the signed dense rank of the priorities"
@@ -191,12 +248,17 @@ def check_array(X, kind, acc, case, only=None):
                     continue
                 for bi in range(X.shape[0]):
                     why = judge(X[bi], method, g[bi])
+                    if why == "SKIP":
+                        continue
                     if why:
                         acc.violation(None, cs, {"what": f"batch slice {bi}: {why}", "array": X.tolist(), "got": g.tolist()})
                         break
                     nlev = max(nlev, len({l[:2] for l in levels(X[bi]) if l is not None}))
                 continue
             why = judge(X2, method, got)
+            if why == "SKIP":
+                acc.n("skipped_outside_64_bit_precondition")
+                continue
             if why:
                 acc.violation(None, cs, {"what": f"{method}: {why}", "array": X.tolist(), "axis": axis, "got": np.asarray(got).tolist(),
                                          "levels(row,magnitude,sign)": levels(X2)})
@@ -209,7 +271,10 @@ def check_array(X, kind, acc, case, only=None):
 
 
 def replay(case, acc):
-    kind, shape, alpha = spaces(case["tier"])[case["si"]]
-    X = decode(case["idx"], shape, alpha)
+    if case["si"] == "deep":
+        kind, X = deep()[case["idx"]]
+    else:
+        kind, shape, alpha = spaces(case["tier"])[case["si"]]
+        X = decode(case["idx"], shape, alpha)
     only = (case["axis"], case["method"]) if "method" in case else None
     check_array(X, kind, acc, {"tier": case["tier"], "si": case["si"], "idx": case["idx"]}, only=only)
